@@ -568,3 +568,117 @@ package mcp
 //@   ensures @new-paths-are-private forall i int :: {absElem(result, off(result) + i)} len(out) <= i && i < len(result) ==> fresh(result[i].Path)
 //@   loop 1: invariant @keeps-earlier-bindings len(local(out)) >= len(out) && (forall i int :: {absElem(local(out), off(local(out)) + i)} 0 <= i && i < len(out) ==> local(out)[i] == old(out[i]))
 //@   loop 1: invariant @new-paths-are-private forall i int :: {absElem(local(out), off(local(out)) + i)} len(out) <= i && i < len(local(out)) ==> fresh(local(out)[i].Path)
+
+// ---------------------------------------------------------------------------------------------
+// C11: HTTP session table and idle timer
+// ---------------------------------------------------------------------------------------------
+
+// The idle timer of a session (sessionInfo.timerMu): the in-flight POST count is never negative, a timer stopped for
+// good stays stopped, and - the point of the reference count - the idle timer is never counting down while a POST
+// is in progress.
+//@ monitor timerMu lock sessionInfo.timerMu as i [C11]
+//@   protects fields(sessionInfo.refs), fields(sessionInfo.timer), ghosts("armed")
+//@   unpublished (*StreamableHTTPHandler).serveStatefulPOST
+//@   assume i.refs < 4611686018427387904   // fewer than 2^62 POSTs in flight on one session
+//@   invariant @refs-nonnegative i.refs >= 0
+//@   invariant @no-idle-timeout-while-posting i.timer != nil && i.refs > 0 ==> !ghostOf("armed", i.timer)
+//@   transition @stopped-timer-stays-stopped old(i.timer) == nil ==> i.timer == nil
+//@   transition @timer-never-replaced i.timer == nil || i.timer == old(i.timer)
+
+//@ func (*sessionInfo).startPOST [C11]
+//@   requires i != nil
+//@   ensures @counts-the-post old(i.timeout) > 0 && at(locked, i.timer) != nil ==> at(unlocked, i.refs) == at(locked, i.refs) + 1 && !at(unlocked, ghostOf("armed", i.timer))
+//@ func (*sessionInfo).endPOST [C11]
+//@   requires i != nil
+//@   ensures @uncounts-the-post old(i.timeout) > 0 && at(locked, i.timer) != nil ==> at(unlocked, i.refs) == at(locked, i.refs) - 1
+//@   ensures @last-post-rearms old(i.timeout) > 0 && at(locked, i.timer) != nil && at(locked, i.refs) == 1 ==> at(unlocked, ghostOf("armed", i.timer))
+//@ func (*sessionInfo).stopTimer [C11]
+//@   requires i != nil
+//@   ensures @stops-for-good at(unlocked, i.timer) == nil && (at(locked, i.timer) != nil ==> !at(unlocked, ghostOf("armed", at(locked, i.timer))))
+
+// The session table (StreamableHTTPHandler.mu): every entry is a live sessionInfo.
+//@ monitor hmu lock StreamableHTTPHandler.mu as h [C11]
+//@   protects fields(StreamableHTTPHandler.sessions), maps("map[string]*sessionInfo")
+//@   invariant @entries-are-sessions forall k string :: {inDom(h.sessions, k)} inDom(h.sessions, k) ==> rawGet(h.sessions, k) != nil
+
+// lookupSession: the table is consulted (under the lock) for every request that carries a session id; an id that is
+// not in the table gets 404, a session created by an authenticated user is handed only to requests authenticated as
+// that user (others get 403), and nothing else is rejected.
+//@ func (*StreamableHTTPHandler).lookupSession [C11]
+//@   track http.Error as reject
+//@   track auth.TokenInfoFromContext as tok
+//@   ghost entry := at(unlocked, h.sessions[sessionID])
+//@   requires h != nil && req != nil
+//@   modifies *
+//@   ensures @dead-or-unknown-id-is-404 entry == nil ==> !result.1 && result.0 == nil && calls(reject) == 1 && callArg(reject, 1, 2) == 404
+//@   ensures @foreign-user-is-403 entry != nil && entry.userID != "" && calls(tok) == 1 && (callResult(tok, 1, 0) == nil || callResult(tok, 1, 0).UserID != entry.userID) ==> !result.1 && result.0 == nil && calls(reject) == 1 && callArg(reject, 1, 2) == 403
+//@   ensures @proceeds-only-for-owner result.1 ==> result.0 == entry && entry != nil && calls(reject) == 0 && (entry.userID == "" || (calls(tok) == 1 && callResult(tok, 1, 0) != nil && callResult(tok, 1, 0).UserID == entry.userID))
+//@   ensures @bound-sessions-always-check-the-user entry != nil && entry.userID != "" ==> calls(tok) == 1
+//@   ensures @ok-iff-session result.1 <==> result.0 != nil
+//@   ensures @rejects-at-most-once calls(reject) <= 1 && (!result.1 ==> calls(reject) == 1)
+
+// GET and DELETE on a stateful endpoint: without a session id 400; otherwise lookupSession decides, and only a request
+// it lets through reaches the session (GET: its transport; DELETE: the session is closed, 204).
+//@ func (*StreamableHTTPHandler).serveStatefulDELETE [C11]
+//@   track lookupSession as lookup
+//@   track (*ServerSession).Close as closeSession
+//@   track http.Error as reject
+//@   requires h != nil && req != nil
+//@   modifies *
+//@   snapshot afterLookup after call lookupSession
+//@   ensures @delete-closes-exactly-the-addressed-session calls(lookup) == 1 && callResult(lookup, 1, 1) ==> calls(closeSession) == 1 && callArg(closeSession, 1, 0) == at(afterLookup, callResult(lookup, 1, 0).session)
+//@   ensures @refused-delete-has-no-effect calls(lookup) == 0 || !callResult(lookup, 1, 1) ==> calls(closeSession) == 0
+//@   ensures @missing-id-is-400 calls(lookup) == 0 ==> calls(reject) == 1 && callArg(reject, 1, 2) == 400
+//@ func (*StreamableHTTPHandler).serveStatefulGET [C11]
+//@   track lookupSession as lookup
+//@   track (*StreamableServerTransport).ServeHTTP as serve
+//@   requires h != nil && req != nil
+//@   modifies *
+//@   snapshot afterLookup after call lookupSession
+//@   ensures @get-reaches-only-the-addressed-session calls(serve) <= 1 && (calls(serve) == 1 ==> calls(lookup) == 1 && callResult(lookup, 1, 1) && callArg(serve, 1, 0) == at(afterLookup, callResult(lookup, 1, 0).transport))
+
+// POST on a stateful endpoint: a request that names a session reaches only that session, through lookupSession, is
+// counted as in flight for exactly the time it is being served (so the idle timer is paused), and never mints an id
+// or creates a session; ids are minted only for requests that carry none.
+//@ func (*StreamableHTTPHandler).serveStatefulPOST [C11]
+//@   track lookupSession as lookup
+//@   track connectStreamable as connect
+//@   track (*sessionInfo).startPOST as start
+//@   track (*sessionInfo).endPOST as end
+//@   track (*StreamableServerTransport).ServeHTTP as serve
+//@   track server.opts.GetSessionID as mint
+//@   snapshot afterLookup after call lookupSession
+//@   ghost sid := old(hdrGet(req.Header, sessionIDHeader))
+//@   requires h != nil && req != nil
+//@   modifies *
+//@   ensures @ids-are-minted-only-for-requests-without-one sid != "" ==> calls(mint) == 0 && calls(connect) == 0
+//@   ensures @named-session-only-through-lookup sid != "" && calls(serve) >= 1 ==> calls(serve) == 1 && calls(lookup) == 1 && callResult(lookup, 1, 1) && callArg(serve, 1, 0) == at(afterLookup, callResult(lookup, 1, 0).transport)
+//@   ensures @refused-post-reaches-nothing sid != "" && (calls(lookup) == 0 || !callResult(lookup, 1, 1)) ==> calls(serve) == 0 && calls(start) == 0
+//@   ensures @post-is-counted-while-served sid != "" && calls(serve) == 1 ==> calls(start) == 1 && calls(end) == 1 && callArg(start, 1, 0) == callResult(lookup, 1, 0) && callArg(end, 1, 0) == callResult(lookup, 1, 0)
+//@   ensures @every-counted-post-is-uncounted calls(end) == calls(start)
+//@   assert at call (*StreamableServerTransport).ServeHTTP: @idle-timer-paused-while-serving calls(end) == 0 && (sid != "" ==> calls(start) == 1)
+
+// Header parsing helpers: they only read their arguments (frame checked).
+//@ func streamableAccepts [C11, C12]
+//@   pure
+//@ func baseMediaType [C11, C12]
+//@   pure
+
+// Stateless endpoints (compatibility flag allowsessionsinstateless unset): only POST is served - everything else,
+// GET and DELETE included, is answered 405 and reaches no session - no session id is read from the request or
+// minted, and the temporary session of a served POST is closed when the request ends. (That the session table is
+// not touched is part of the lock-discipline obligation of the table's monitor: serveStateless never takes h.mu.)
+//@ func (*StreamableHTTPHandler).serveStateless [C11]
+//@   track http.Error as reject
+//@   track connectStreamable as connect
+//@   track (*StreamableServerTransport).ServeHTTP as serve
+//@   track (*ServerSession).Close as closeSession
+//@   track server.opts.GetSessionID as mint
+//@   track serveStatelessLegacyDELETE as legacyDelete
+//@   requires h != nil && req != nil
+//@   modifies *
+//@   ensures @non-post-is-405 allowsessionsinstateless != "1" && old(req.Method) != "POST" ==> calls(reject) == 1 && callArg(reject, 1, 2) == 405 && calls(connect) == 0 && calls(serve) == 0
+//@   ensures @no-ids-minted allowsessionsinstateless != "1" ==> calls(mint) == 0 && calls(legacyDelete) == 0
+//@   ensures @temporary-session-is-closed calls(connect) == 1 && callResult(connect, 1, 1) == nil ==> calls(closeSession) == 1 && callArg(closeSession, 1, 0) == callResult(connect, 1, 0) && calls(serve) == 1
+//@   ensures @serves-only-a-connected-session calls(serve) <= 1 && (calls(serve) == 1 ==> calls(connect) == 1 && callResult(connect, 1, 1) == nil && callArg(serve, 1, 0) == callArg(connect, 1, 2))
+//@   assert at call connectStreamable: @stateless-sessions-carry-no-id allowsessionsinstateless != "1" ==> $2.SessionID == "" && $2.Stateless
